@@ -654,6 +654,12 @@ Definition mk_cb (rules : list (nat * nat)) (cbs : list cbdata) (r : nat) : cbsh
                       end |}
   end.
 
+(* token positions given as data: id -> ((start_pos, line, column), (end_pos, end_line, end_column)) *)
+Definition mk_env (rules : list (nat * nat)) (cbs : list cbdata) (pp : bool)
+           (tps : list (nat * (trip * trip))) : cbenv :=
+  {| ce_cb := mk_cb rules cbs; ce_pp := pp;
+     ce_tp := fun id => match assoc id tps with Some x => x | None => ((0, 0, 0), (0, 0, 0))%Z end |}.
+
 Fixpoint cbs_wf (rules : list (nat * nat)) (cbs : list cbdata) : bool :=
   match rules, cbs with
   | [], [] => true
